@@ -877,7 +877,6 @@ func r30MultiPolygonMerge(c *core.Ctx) {
 	c.Floor(R, 2)
 }
 
-
 // wrapperParamRoles tells the three parameters of wrapFeatureForTileMatrix apart by type: the feature (interface
 // processing.Feature), the tile matrix id (an integer) and the geometry (geom.Geometry).  -1 where not found.
 func wrapperParamRoles(ctor *ssa.Function) (feature, key, geometry int) {
